@@ -64,6 +64,14 @@ fn bases(tier: Tier) -> Vec<(&'static str, Map<String, Value>, KeyAssign)> {
     let all = vec![
         ("with-unsigned", obj(json!({"a": 1, "unsigned": {"age": 5, "x": [1, {"y": null}]}})), none()),
         ("foreign-valid-signature", foreign, fk),
+        // keys that the *event* functions treat specially (`hashes` is outside the content hash, `content` /
+        // `type` drive redaction): for plain JSON signing they are ordinary signed content
+        (
+            "event-like-keys",
+            obj(json!({"hashes": {"sha256": "aGFzaA"}, "type": "m.room.member", "event_id": "$e", "content": {"hashes": 1, "membership": "join", "x": "y"},
+                       "origin": "a.org", "unsigned": {"age": 1}})),
+            none(),
+        ),
         ("escapes", obj(json!({"\"q\"": "line\nfeed", "é": "\u{10000}", "\\": "\u{7f}\u{1f}", "unsigned": {"é": "\u{0}"}})), none()),
         ("signatures-not-object", obj(json!({"a": 1, "signatures": "oops", "unsigned": {"u": 1}})), none()),
         ("entity-entry-not-object", obj(json!({"a": 1, "signatures": {"a.org": "oops"}, "unsigned": {"u": 1}})), none()),
@@ -90,7 +98,7 @@ fn bases(tier: Tier) -> Vec<(&'static str, Map<String, Value>, KeyAssign)> {
     if tier.is_thorough() {
         all
     } else {
-        all.into_iter().take(5).collect()
+        all.into_iter().take(6).collect()
     }
 }
 
